@@ -97,6 +97,18 @@ def body(ctx):
         if k >= 3:
             ops = ops[1:2] + ops[0:1] + ops[2:]
         specs.append(('unusable arguments', dict(seed=ctx.seed + 800 + k, maxdata=4096, rid='plus', frag='whole', ops=ops), {}))
+    # the generator protocol beyond plain iteration: values sent into streaming_shell's generator; callbacks that are falsy objects
+    for k in range(4):
+        ops = [dict(api='streaming_shell', decode=bool(k % 2), cmd='s%d' % k, chunks=[b'l1\n'.hex(), b'l2\n'.hex(), b'l3\n'.hex()], take=2, hold='g', send='more'),
+               dict(api='shell', decode=False, cmd='x', chunks=[b'x'.hex()]), dict(api='resume', gen='g'),
+               dict(api='pull', path='/f', size=5000, dest='bytesio', cb='ok', cb_falsy=True), dict(api='push', path='/q', size=5000, src='bytesio', mtime=3, cb='ok', cb_falsy=True),
+               dict(api='shell', decode=False, cmd='after', chunks=[b'ok'.hex()])]
+        specs.append(('generator protocol / falsy callbacks', dict(seed=ctx.seed + 950 + k, maxdata=4096, rid='plus', frag='whole', ops=ops), {}))
+    # operations on a device that is not connected (never connected / closed), local paths that exist or not
+    for k in range(3):
+        ops = [dict(api='pull', path='/f', size=100, dest='path', local_as=('str', 'missing_dir', 'pathlib')[k]), dict(api='push', path='/q', size=10, src=('bytesio', 'path')[k % 2], mtime=3),
+               dict(api='stat', path='/s', st=[1, 2, 3]), dict(api='shell', decode=False, cmd='x', chunks=[])]
+        specs.append(('not connected', dict(seed=ctx.seed + 960 + k, maxdata=4096, rid='plus', frag='whole', connect=False, close=(k == 1), ops=ops), {}))
     # a damaged packet in the middle of a session (payload bit, checksum field off by one, checksum field zero)
     for k in range(9):
         ops = [dict(api='shell', decode=False, cmd='a', chunks=[b'one'.hex(), b'two'.hex()]), dict(api='stat', path='/s', st=[1, 2, 3]), dict(api='pull', path='/p', size=5000, dest='bytesio'),
